@@ -133,8 +133,8 @@ def run_case(case):
                     tS = o.get("tS", 1)
                     order = ev.get("order") or sorted(ev["w"].keys())
                     args = [[v, [[py_val(p[0], tS, False), py_val(p[1], S, ev.get("flt", False))] for p in ev["w"][v]]] for v in order]
-                    for v in sorted(ev.get("extra", {})):
-                        args.append([v, [list(p) for p in ev["extra"][v]]])
+                    for v in sorted(ev.get("extra", {})):      # supplied but never declared; anywhere in the argument list
+                        args.insert(min(ev.get("extra_at", len(args)), len(args)), [v, [list(p) for p in ev["extra"][v]]])
                     if ev.get("share"):
                         if ev["share"] not in shared:
                             shared[ev["share"]] = args
@@ -160,7 +160,7 @@ def run_case(case):
                     order = ev.get("order") or sorted(ev["s"].keys())
                     args = [[v, py_val(ev["s"][v], S, ev.get("flt", False))] for v in order]
                     for v in sorted(ev.get("extra", {})):
-                        args.append([v, ev["extra"][v]])
+                        args.insert(min(ev.get("extra_at", len(args)), len(args)), [v, ev["extra"][v]])
                     if ev.get("share"):
                         if ev["share"] not in shared:
                             shared[ev["share"]] = args
